@@ -186,6 +186,24 @@ pub fn arch_paths<M: MArch + Paths, const N: usize>() {
         assert!(n2 <= N);
     }
     assert!(n2 == m.len, "Archetype::iter_mut yields another number of items than len()");
+    // positioned access (nth / skip): item k is dense cell k — handle AND components
+    let k = sym::any_usize();
+    sym::assume(k <= N);
+    match a.iter().nth(k) {
+        None => assert!(k >= m.len, "Archetype::iter().nth(k) ended early"),
+        Some(item) => {
+            let raw = M::iter_item_raw(&item);
+            assert!(k < m.len && raw.0 == m.handle_raw(M::ID, k) && raw.1 == m.val[k], "Archetype::iter().nth(k) does not pair the handle of dense cell k with its own components");
+        }
+    }
+    let mut cnt = 0;
+    for item in a.iter_mut().skip(k) {
+        let raw = M::iter_mut_item_raw(&item);
+        assert!(raw.0 == m.handle_raw(M::ID, k + cnt) && raw.1 == m.val[k + cnt], "Archetype::iter_mut().skip(k) pairs a handle with another entity's components");
+        cnt += 1;
+        assert!(cnt <= N);
+    }
+    assert!(cnt == if k < m.len { m.len - k } else { 0 }, "Archetype::iter_mut().skip(k) yields another number of items");
     cover!(m.len == N, "full archetype");
     cover!(m.len == 0, "empty archetype");
     std::mem::forget(world);
@@ -321,8 +339,8 @@ harness! { fn c06_iter_tri_only_3_2() unwind(5) { iter_single::<3, 2>(0) } }
 harness! { fn c06_iter_borrow_other_only_2_3() unwind(5) { iter_single::<2, 3>(1) } }
 harness! { fn c06_iter_borrow_tri_mut_3_1() unwind(5) { iter_single::<3, 1>(2) } }
 harness! { fn c06_iter_other_typed_1_3() unwind(5) { iter_single::<1, 3>(3) } }
-harness! { fn c06_arch_iter_tri_3() unwind(6) { arch_paths::<Tri, 3>() } }
-harness! { fn c06_arch_iter_other_3() unwind(6) { arch_paths::<Other, 3>() } }
-harness! { fn c06_arch_iter_tri_4() unwind(7) { arch_paths::<Tri, 4>() } }
+harness! { fn c06_arch_iter_tri_3() unwind(8) { arch_paths::<Tri, 3>() } }
+harness! { fn c06_arch_iter_other_3() unwind(8) { arch_paths::<Other, 3>() } }
+harness! { fn c06_arch_iter_tri_4() unwind(8) { arch_paths::<Tri, 4>() } }
 harness! { fn c06_slices_tri_3() unwind(5) { slice_paths::<3>() } }
 harness! { fn c06_slices_tri_4() unwind(6) { slice_paths::<4>() } }
